@@ -53,12 +53,28 @@ partial def lexLoop (h : IO.FS.Stream) (out : IO.FS.Stream) : IO Unit := do
   out.putStrLn ("|".intercalate (ps.map fun p => " ".intercalate (p.map fun t => if t.isEmpty then "e" else encStr t)))
   lexLoop h out
 
+/-- bfix mode: `owner \t params \t action \t old tokens`  →  `ok <tokens>` | `err <PyErr>` | `unmodelled` -/
+partial def bfixLoop (h : IO.FS.Stream) (out : IO.FS.Stream) : IO Unit := do
+  let line ← h.getLine
+  if line.isEmpty then return ()
+  let line := if line.endsWith "\n" then (line.dropEnd 1).toString else line
+  match line.splitOn "\t" with
+  | [owner, ps, ac, ts] =>
+    let old := (decToks ts).map (·.tok)
+    match Base.fixByOwner owner (Base.Dec.kv ps) (Base.Dec.kv ac) old with
+    | none => out.putStrLn "unmodelled"
+    | some (.error e) => out.putStrLn s!"err {repr e}"
+    | some (.ok new) => out.putStrLn ("ok " ++ " ".intercalate (new.map fun t => s!"{t.cls}:{encStr t.val}"))
+  | _ => out.putStrLn "error bad line"
+  bfixLoop h out
+
 def main (args : List String) : IO UInt32 := do
   let stdin ← IO.getStdin
   let stdout ← IO.getStdout
   match args with
   | ["trace"] => traceLoop stdin stdout [] none; return 0
   | ["lex"] => lexLoop stdin stdout; stdout.flush; return 0
+  | ["bfix"] => bfixLoop stdin stdout; stdout.flush; return 0
   | ["lines"] => Lex.linesMain stdin stdout; stdout.flush; return 0
   | ["wb"] => Vsgm.WB.wbMain stdin stdout; return 0
   | _ => IO.eprintln "usage: driver <mode>"; return 2
